@@ -191,7 +191,11 @@ def check_ctor(case) -> Result:
                 if im[0] <= 0:
                     invalid.append('maximum_current<=0')
                 s0, s1 = U.si('Current', *i0), U.si('Current', *im)
-                if abs(s0 - s1) <= 1e-9 * max(abs(s0), abs(s1)):
+                if case.get('equal_currents'):
+                    # the same decimal magnitude written in two units: 'not below the maximum current' (C05: equal
+                    # magnitudes compare equal whatever the units)
+                    invalid.append('no_load_current>=maximum_current')
+                elif abs(s0 - s1) <= 1e-9 * max(abs(s0), abs(s1)):
                     ambiguous = True
                 elif s0 >= s1:
                     invalid.append('no_load_current>=maximum_current')
@@ -268,10 +272,17 @@ def s_ctor(draw):
     which = draw(st.sampled_from(['DCMotor', 'DCMotor', 'pwm', 'SpurGear', 'HelicalGear', 'WormWheel', 'WormGear']))
     case = {'ctor': which}
     if which == 'DCMotor':
-        bad = draw(st.sampled_from(['w0', 'tmax', 'i0', 'imax', 'order', 'none', 'none']))
+        bad = draw(st.sampled_from(['w0', 'tmax', 'i0', 'imax', 'order', 'equal', 'none', 'none']))
         case['w0'] = draw(_sq('AngularSpeed', signed=bad == 'w0'))
         case['tmax'] = draw(_sq('Torque', signed=bad == 'tmax'))
-        if bad in ('i0', 'imax', 'order') or draw(st.booleans()):
+        if bad == 'equal':
+            from fractions import Fraction as Fr
+            ua = draw(st.integers(1, 9999)) * 10 ** draw(st.integers(0, 3))          # microampere
+            u1, u2 = draw(st.permutations(['A', 'mA', 'uA']))[:2]
+            case['i0'] = [float(Fr(ua, 10 ** 6) / U.factor('Current', u1)), u1]
+            case['imax'] = [float(Fr(ua, 10 ** 6) / U.factor('Current', u2)), u2]
+            case['equal_currents'] = True
+        elif bad in ('i0', 'imax', 'order') or draw(st.booleans()):
             im = draw(_sq('Current', -2, 2, signed=bad == 'imax'))
             iu = draw(st.sampled_from(list(U.UNITS['Current'])))
             if bad == 'order':
